@@ -376,6 +376,126 @@ pub fn gen_tree(r: &mut Rng, leaves: usize, leaf: &mut dyn FnMut(&mut Rng) -> Ex
     }
 }
 
+/// A leaf *related* to `l`: an equal-valued copy (a fresh node, not a shared Rc), the same test with the
+/// other comparison form, the same field with the neighbouring constant, the same pattern with the other
+/// case rule, the same bits under another check kind, the same destination with another terminator.
+/// Random trees draw their constants independently, so without this two leaves of one expression are
+/// almost never equal or adjacent - which is where folding, merging and caching go wrong.
+pub fn related_leaf(l: &Expression, r: &mut Rng) -> Expression {
+    fn cmp_var<T: Clone>(c: &Comparison<T>, r: &mut Rng, bump: impl Fn(&T, bool) -> T) -> Comparison<T> {
+        let (Comparison::Equal(v) | Comparison::GreaterThan(v) | Comparison::LesserThan(v)) = c;
+        let v = match r.below(4) {
+            0 => bump(v, true),
+            1 => bump(v, false),
+            _ => v.clone(),
+        };
+        match r.below(4) {
+            0 => Comparison::Equal(v),
+            1 => Comparison::GreaterThan(v),
+            2 => Comparison::LesserThan(v),
+            _ => match c {
+                Comparison::Equal(_) => Comparison::Equal(v),
+                Comparison::GreaterThan(_) => Comparison::GreaterThan(v),
+                Comparison::LesserThan(_) => Comparison::LesserThan(v),
+            },
+        }
+    }
+    let b32 = |v: &u32, up: bool| if up { v.saturating_add(1) } else { v.saturating_sub(1) };
+    let b64 = |v: &u64, up: bool| if up { v.saturating_add(1) } else { v.saturating_sub(1) };
+    let bsize = |v: &Size, up: bool| {
+        let (n, unit) = size_parts(v);
+        let unit_index = crate::findsem::UNITS_SIZE.iter().position(|(_, u)| *u == unit).unwrap_or(0) as u64;
+        let max = u64::MAX / unit;
+        mk_size(unit_index, if up { (n + 1).min(max) } else { n.saturating_sub(1) })
+    };
+    let btime = |v: &TimeSpec, up: bool| {
+        let (n, unit) = time_parts(v);
+        let ui = match unit {
+            1 => 0,
+            60 => 1,
+            3600 => 2,
+            _ => 3,
+        };
+        mk_time(ui, if up { n.saturating_add(1) } else { n.saturating_sub(1) })
+    };
+    match l {
+        Expression::Test(x) => t(match x {
+            Test::UserId(c) => Test::UserId(cmp_var(c, r, b32)),
+            Test::GroupId(c) => Test::GroupId(cmp_var(c, r, b32)),
+            Test::InodeNumber(c) => Test::InodeNumber(cmp_var(c, r, b32)),
+            Test::MirrorCount(c) => Test::MirrorCount(cmp_var(c, r, b32)),
+            Test::StripeCount(c) => Test::StripeCount(cmp_var(c, r, b32)),
+            Test::Links(c) => Test::Links(cmp_var(c, r, b64)),
+            Test::Size(c) => Test::Size(cmp_var(c, r, bsize)),
+            Test::AccessTime(c) => match r.below(3) {
+                0 => Test::ModifyTime(cmp_var(c, r, btime)),
+                _ => Test::AccessTime(cmp_var(c, r, btime)),
+            },
+            Test::ChangeTime(c) => Test::ChangeTime(cmp_var(c, r, btime)),
+            Test::ModifyTime(c) => match r.below(3) {
+                0 => Test::ChangeTime(cmp_var(c, r, btime)),
+                _ => Test::ModifyTime(cmp_var(c, r, btime)),
+            },
+            Test::Name(s) => match r.below(3) {
+                0 => Test::InsensitiveName(s.clone()),
+                1 => Test::Path(s.clone()),
+                _ => Test::Name(s.clone()),
+            },
+            Test::InsensitiveName(s) => match r.below(3) {
+                0 => Test::Name(s.clone()),
+                1 => Test::InsensitiveName(s.to_uppercase()),
+                _ => Test::InsensitiveName(s.clone()),
+            },
+            Test::Path(s) => match r.below(3) {
+                0 => Test::InsensitivePath(s.clone()),
+                1 => Test::Name(s.clone()),
+                _ => Test::Path(s.clone()),
+            },
+            Test::InsensitivePath(s) => match r.below(2) {
+                0 => Test::Path(s.clone()),
+                _ => Test::InsensitivePath(s.clone()),
+            },
+            Test::Perm(p) => {
+                let (PermCheck::Equal(m) | PermCheck::AtLeast(m) | PermCheck::Any(m)) = p;
+                let m = Permission(m.0);
+                match r.below(4) {
+                    0 => Test::Perm(PermCheck::Equal(m)),
+                    1 => Test::Perm(PermCheck::AtLeast(m)),
+                    2 => Test::Perm(PermCheck::Any(m)),
+                    _ => x.clone(),
+                }
+            }
+            Test::Type(v) => {
+                let mut v = v.clone();
+                if r.chance(1, 2) && !v.is_empty() {
+                    let f = v[0].clone();
+                    v.push(f);
+                }
+                Test::Type(v)
+            }
+            other => other.clone(),
+        }),
+        Expression::Action(a) => act(match a {
+            Action::FilePrint(f) => match r.below(3) {
+                0 => Action::FilePrintNull(f.clone()),
+                1 => Action::FilePrintFormatted(f.clone(), vec![FormatElement::Field(FormatField::Name)]),
+                _ => Action::FilePrint(f.clone()),
+            },
+            Action::FilePrintNull(f) => match r.below(2) {
+                0 => Action::FilePrint(f.clone()),
+                _ => Action::FilePrintNull(f.clone()),
+            },
+            Action::Print => match r.below(3) {
+                0 => Action::PrintNull,
+                1 => Action::PrintFormatted(vec![FormatElement::Field(FormatField::Name), FormatElement::Special(FormatSpecial::Newline)]),
+                _ => Action::Print,
+            },
+            other => other.clone(),
+        }),
+        other => other.clone(),
+    }
+}
+
 /// Constructor route only: the same tree with explicit grouping nodes (`Operator::Precedence`, which the
 /// parser never produces but the public constructors allow) wrapped around random sub-trees.
 pub fn with_groups(e: &Expression, r: &mut Rng, one_in: u64) -> Expression {
